@@ -311,10 +311,7 @@ pub fn run(ctx: &Ctx) -> i32 {
             patterns.push(p);
         }
     }
-    let ns: Vec<usize> = match ctx.tier {
-        Tier::Quick => vec![1, 2, 3, 5, 8, 13, 21, 30, 31, 32, 40, 64, 127, 128, 129, 255, 256, 257, 300],
-        Tier::Thorough => (1..=40).chain([64, 127, 128, 129, 255, 256, 257, 300]).collect(),
-    };
+    let ns: Vec<usize> = (1..=64).chain([100, 127, 128, 129, 200, 255, 256, 257, 300]).collect();
     let total = (patterns.len() * ns.len() * 2) as u64;
     acc = acc.merge(par_cases(total, |i, acc| {
         let framed = i % 2 == 1;
